@@ -522,3 +522,126 @@ def vp_check(ex, st, fr, ins, args):
         return None
     ex.add_obligation(st, label, z3.Not(c), line=ins.get('line'))
     return None
+
+
+# ---------------------------------------------------------------------- text -> float
+
+def _classify(ex, st, b):
+    """class of a (possibly symbolic) byte: 'd' digit, '.', '+', '-', ' ', ',' or 'o' other.
+    A symbolic byte must be forced into one class by the path condition."""
+    if isinstance(b, int):
+        c = chr(b)
+        if c.isdigit():
+            return 'd'
+        if c in '.+- ,':
+            return c
+        return 'o'
+    isd = z3.And(z3.UGE(b, ord('0')), z3.ULE(b, ord('9')))
+    if ex.sat(st, z3.Not(isd)) == 'unsat':
+        return 'd'
+    for c in '.+- ,':
+        if ex.sat(st, b != ord(c)) == 'unsat':
+            return c
+    if ex.sat(st, isd) == 'unsat':
+        return 'o'
+    raise EngineError('text scanner: a symbolic byte is not forced into one character class by the harness')
+
+
+def _token_value(ex, token, w):
+    """value of a decimal token: exact for concrete text, an uninterpreted
+    function of the bytes otherwise (text -> float parsing is a trusted stub)."""
+    if all(isinstance(x, int) for x in token):
+        try:
+            return FV(64, float(bytes(token).decode())), True
+        except ValueError:
+            return FV(64, 0.0), False
+    n = len(token)
+    key = ('parsefloat', n)
+    f = CTX.uf.get(key)
+    if f is None:
+        f = z3.Function('uf_parsefloat_%d' % n, *([z3.BitVecSort(8)] * n + [fpops.F64]))
+        CTX.uf[key] = f
+    ex.res.stubs.add('strconv.ParseFloat / fmt.Fscanf(%f): uninterpreted function of the token bytes (finite result assumed)')
+    r = f(*[bv(x, 8) for x in token])
+    CTX.pending.append(z3.Not(z3.Or(z3.fpIsNaN(r), z3.fpIsInf(r))))
+    return FV(64, r), True
+
+
+@stub('strconv.ParseFloat')
+def strconv_parsefloat(ex, st, fr, ins, args):
+    s, bits = args
+    v, ok = _token_value(ex, list(s.b), 64)
+    if not ok:
+        t = None
+        for ty in ex.prog.types:
+            if ty.k == 'named' and ty.name == 'vph/vp.Err':
+                t = ty
+        return Tup([FV(64, 0.0), Iface(t, Str(b'<parse error>'))])
+    if isinstance(bits, int) and bits == 32:
+        v = fpops.fconv(fpops.fconv(v, 32), 64)
+    return Tup([v, None])
+
+
+def _field_off(ex, tname, fname):
+    for ty in ex.prog.types:
+        if ty.k == 'named' and ty.name == tname:
+            u = ex.U(ty)
+            for i, f in enumerate(u.fields):
+                if f['name'] == fname:
+                    return u.foffs[i]
+    raise EngineError('no field %s.%s' % (tname, fname))
+
+
+@stub('fmt.Fscanf')
+def fmt_fscanf(ex, st, fr, ins, args):
+    """model of fmt.Fscanf(r, "%f", &f32) on a *strings.Reader: consume the
+    maximal [+-]?digits[.digits] token at the read position."""
+    rd, fmtstr, rest = args
+    if not (isinstance(fmtstr, Str) and fmtstr.concrete() and fmtstr.py() == '%f'):
+        raise EngineError('Fscanf model supports "%f" only')
+    if not isinstance(rd, Iface) or rd.t.s != '*strings.Reader':
+        raise EngineError('Fscanf model needs a *strings.Reader')
+    p = rd.v
+    so, io_ = _field_off(ex, 'strings.Reader', 's'), _field_off(ex, 'strings.Reader', 'i')
+    obj = st.heap[p.obj]
+    s, i = obj[p.off + so], obj[p.off + io_]
+    if not isinstance(i, int):
+        raise EngineError('symbolic read position')
+    b = s.b
+    j = i
+    if j < len(b) and _classify(ex, st, b[j]) in '+-':
+        j += 1
+    dots = 0
+    while j < len(b):
+        c = _classify(ex, st, b[j])
+        if c == 'd':
+            j += 1
+        elif c == '.' and dots == 0:
+            dots = 1
+            j += 1
+        else:
+            break
+    token = list(b[i:j])
+    tgt = ex.slice_elems(st, rest)
+    if len(tgt) != 1:
+        raise EngineError('Fscanf model: one target expected')
+    v, ok = _token_value(ex, token, 32) if token else (FV(64, 0.0), False)
+    if not ok:
+        return Tup([0, Iface([ty for ty in ex.prog.types if ty.k == 'named' and ty.name == 'vph/vp.Err'][0], Str(b'<scan error>'))])
+    w = st.wobj(p.obj)
+    w[p.off + io_] = j
+    ptr = tgt[0].v
+    ex.store(st, ptr, fpops.fconv(v, 32))
+    ex.res.stubs.add('fmt.Fscanf("%f"): token model [+-]?digits[.digits]')
+    return Tup([1, None])
+
+
+@stub('(*golang.org/x/image/vector.Rasterizer).Draw')
+def vector_draw(ex, st, fr, ins, args):
+    ex.res.stubs.add('golang.org/x/image/vector.Rasterizer.Draw: no-op (pixels are outside the model)')
+    return None
+
+
+@stub('(*golang.org/x/image/vector.Rasterizer).Reset')
+def vector_reset(ex, st, fr, ins, args):
+    return None
